@@ -29,8 +29,11 @@ def run(ctx):
         ctx.count("functions_analysed", len(crate.bodies))
         state_reset(ctx, crate, tag)
         field_writes(ctx, crate, tag)
-        cancel_safety(ctx, crate, crs, tag)
+        mech.cancel_safety(ctx, crate, crs, tag)
         mech.availability_query(ctx, "availability", crate, crs, tag)
+        # "provider metadata obtained by earlier calls is not requested again"
+        mech.memo_check(ctx, "memoisation", crate, crs, tag)
+        mech.choke_points(ctx, "choke-points", crate, tag)
         solve_is_exclusive(ctx, crate, tag)
 
 
@@ -108,94 +111,6 @@ def field_writes(ctx, crate, tag):
     if a:
         names = [f["name"] for f in a["variants"][0]["fields"]]
         ctx.notes.append("Solver fields: %s" % names)
-
-
-def cancel_safety(ctx, crate, crs, tag):
-    """Acquire = HashMap::insert into a RefCell<HashMap> field of SolverCache inside a coroutine;
-    release = HashMap::remove on the same field."""
-    cache = crate.adts.get(CACHE_ADT)
-    fields = [f["name"] for f in cache["variants"][0]["fields"]
-              if f["ty"].startswith("std::cell::RefCell<std::collections::HashMap<")] if cache else []
-    ctx.floor("cancel-safety" + tag, "RefCell<HashMap> fields of SolverCache", len(fields), 1)
-    n_acq = 0
-    for b in crate.bodies:
-        if not b.coroutine or not b.key.startswith("resolvo::solver::"):
-            continue
-        for F in fields:
-            acqs = q.calls_on_field(b, "std::collections::HashMap::insert", CACHE_ADT, F)
-            rels = [i for i, _ in q.calls_on_field(b, "std::collections::HashMap::remove", CACHE_ADT, F)]
-            for ai, at in acqs:
-                n_acq += 1
-                held = b.reachable_after(ai, avoid=rels)
-                ys = sorted(y for y in b.yields() if y in held)
-                if not ys:
-                    ctx.ob("cancel-safety" + tag, b.key, "acquire:%s" % F, True, where_call(b, ai),
-                           "no suspension point while the entry is held")
-                    continue
-                guards = drop_guards(crate, b, F)
-                uncovered = []
-                for y in ys:
-                    if not any(guard_live_at(b, gl, gdef, y, ai) for gl, gdef in guards):
-                        uncovered.append(y)
-                ctx.ob("cancel-safety" + tag, b.key, "acquire:%s" % F, not uncovered, where_call(b, ai),
-                       ("entry held across %d suspension point(s); a guard whose Drop removes it is live at each" % len(ys))
-                       if not uncovered else
-                       "entry is held across the .await at %s and released only by code after it: a dropped "
-                       "(cancelled) future leaves the entry behind" % b.loc(uncovered[0]))
-    ctx.floor("cancel-safety" + tag, "manual acquire sites in SolverCache coroutines", n_acq, 1)
-
-
-def drop_guards(crate, b, field):
-    """Locals of b whose type is a crate ADT with a Drop impl that removes from `field`
-    (the guard holds a reference to the RefCell; matched by type of that reference's origin)."""
-    out = []
-    for li, l in enumerate(b.locals):
-        adt = q.adt_of_type(l["ty"])
-        if adt not in crate.adts:
-            continue
-        db = None
-        for c in crate.bodies:
-            if c.d.get("impl_trait") == "std::ops::Drop" and c.d.get("impl_adt") == adt:
-                db = c
-        if db is None:
-            continue
-        removes = db.calls_to("std::collections::HashMap::remove")
-        if not removes:
-            continue
-        # the guard aggregate in b must be built from a reference to CACHE.field
-        for i, j, s in b.assigns():
-            if s["p"]["l"] == li and "p" not in s["p"] and s["r"]["k"] == "agg" and s["r"].get("adt") == adt:
-                for o in s["r"]["ops"]:
-                    d, _ = q.origin_thru(b, o)
-                    if q.mentions_field(d, CACHE_ADT, field):
-                        # does the Drop impl also notify waiters?
-                        out.append((li, i))
-    return out
-
-
-def guard_live_at(b, gl, gdef, y, acquire_bb):
-    """Guard local gl (defined in block gdef) is live at yield y: gdef dominates y and no drop/move of gl
-    lies on a path from gdef to y."""
-    if not b.dominates(gdef, y):
-        return False
-    kills = set()
-    for i, t in b.terms("drop"):
-        if t["p"]["l"] == gl and "p" not in t["p"]:
-            kills.add(i)
-    for i, j, s in b.assigns():
-        r = s["r"]
-        if r["k"] == "use" and r["o"].get("k") == "move" and r["o"]["p"]["l"] == gl:
-            kills.add(i)
-    for i, t in b.calls():
-        for a in t["args"]:
-            if a.get("k") == "move" and a["p"]["l"] == gl and "p" not in a["p"]:
-                kills.add(i)      # e.g. mem::forget(guard) / drop(guard)
-    live = b.reachable_after(gdef, avoid=kills) | {gdef}
-    if y not in live:
-        return False
-    # no yield between the acquire and the guard's creation (the entry would be unprotected there)
-    mid = q.between(b, [acquire_bb], gdef)
-    return not any(b.blocks[m]["term"]["k"] == "yield" for m in mid)
 
 
 def solve_is_exclusive(ctx, crate, tag):
